@@ -186,6 +186,34 @@ runner!(run2, run1);
 runner!(run3, run2);
 runner!(run4, run3);
 
+/// a fresh directory on a file system other than the one that holds `root`
+fn xdev_dir(root: &Path, n: usize) -> Option<PathBuf> {
+    use std::os::unix::fs::MetadataExt;
+    let dev = fs::metadata(root).ok()?.dev();
+    for cand in ["/dev/shm", "/run/shm", "/run", "/var/tmp", "/tmp"] {
+        let c = Path::new(cand);
+        if let Ok(md) = fs::metadata(c) {
+            if md.dev() != dev {
+                let d = c.join(format!("waxh-x-{}-{}", std::process::id(), n));
+                if fs::create_dir_all(&d).is_ok() {
+                    return Some(d);
+                }
+            }
+        }
+    }
+    None
+}
+
+struct XdevGuard(Option<PathBuf>);
+
+impl Drop for XdevGuard {
+    fn drop(&mut self) {
+        if let Some(p) = self.0.take() {
+            let _ = fs::remove_dir_all(p);
+        }
+    }
+}
+
 /// record the real tree in pre-order, in the order the OS returns directory entries
 fn record(dir: &Path, depth: usize, ancestors: &mut Vec<PathBuf>, out: &mut Vec<String>) {
     let rd = match fs::read_dir(dir) {
@@ -307,12 +335,28 @@ pub fn walk_cmd(args: &[&str]) -> String {
     let mut lower: Option<usize> = None;
     let layers = parse_stack(args[6]);
     let mut unreadable = vec![];
+    // `x:<path>` items and `@XDEV` in link targets: a directory on ANOTHER file system than the tree (a mount point
+    // reached through a link); a tree that asks for one where none is writable is answered `noxdev`
+    let wants_xdev = args[7].split(',').any(|i| i.starts_with("x:") || unhex(i.rsplit(':').next().unwrap_or("")).contains("@XDEV"));
+    let xdev = if wants_xdev { xdev_dir(&root, n) } else { None };
+    if wants_xdev && xdev.is_none() {
+        let _ = fs::remove_dir_all(&tmp);
+        return "noxdev".into();
+    }
+    let xdev_str = xdev.as_ref().map(|p| p.to_str().unwrap().to_string()).unwrap_or_default();
+    let _guard = XdevGuard(xdev.clone());
     for item in args[7].split(',') {
         if item.is_empty() || item == "-" {
             continue;
         }
         let mut it = item.split(':');
         let k = it.next().unwrap();
+        if k == "x" {
+            let p = xdev.as_ref().unwrap().join(unhex(it.next().unwrap()));
+            fs::create_dir_all(p.parent().unwrap()).unwrap();
+            fs::write(&p, "").unwrap();
+            continue;
+        }
         let p = root.join(unhex(it.next().unwrap()));
         match k {
             "d" => fs::create_dir_all(&p).unwrap(),
@@ -322,7 +366,7 @@ pub fn walk_cmd(args: &[&str]) -> String {
             },
             "l" => {
                 fs::create_dir_all(p.parent().unwrap()).unwrap();
-                let target = unhex(it.next().unwrap()).replace("@ROOT", &root_str);
+                let target = unhex(it.next().unwrap()).replace("@ROOT", &root_str).replace("@XDEV", &xdev_str);
                 let _ = std::os::unix::fs::symlink(target, &p);
             },
             _ => {
